@@ -13,6 +13,15 @@ import (
 // interval of the character value on the edge that reaches the addition is [65, 90]. Recognises both
 // `c >= 'A' && c <= 'Z'` and the single unsigned comparison `c-'A' <= 'Z'-'A'`.
 func foldRangeRule(c *Ctx, r *Report, rule, fname, consequence string) {
+	foldRangeRuleDir(c, r, rule, fname, consequence, false)
+}
+
+// foldRangeRuleDir: upper=true is the mirror image: exactly 'a'..'z' get 32 subtracted.
+func foldRangeRuleDir(c *Ctx, r *Report, rule, fname, consequence string, upper bool) {
+	wantLo, wantHi := int64('A'), int64('Z')
+	if upper {
+		wantLo, wantHi = 'a', 'z'
+	}
 	fn := c.ssaFunc(fname)
 	if fn == nil {
 		r.cerr(rule, fname, "function not found")
@@ -42,7 +51,7 @@ func foldRangeRule(c *Ctx, r *Report, rule, fname, consequence string) {
 	for _, f := range fns {
 		allInstrs(f, func(in ssa.Instruction) {
 			add, ok := in.(*ssa.BinOp)
-			if !ok || (add.Op != token.ADD && add.Op != token.OR) {
+			if !ok || (!upper && add.Op != token.ADD && add.Op != token.OR) || (upper && add.Op != token.SUB && add.Op != token.AND_NOT) {
 				return
 			}
 			k, isK := constIntOf(add.Y)
@@ -59,14 +68,14 @@ func foldRangeRule(c *Ctx, r *Report, rule, fname, consequence string) {
 				problems = append(problems, fmt.Sprintf("%s: the fold works on runes (strings.Map / range over a string): an octet above 0x7f that is not valid UTF-8 is replaced by U+FFFD, so the folded name is a different name; DNS names are folded octet by octet (RFC 4343)", c.pos(add.Pos())))
 			}
 			lo, hi := charInterval(f, add.Block(), func(v ssa.Value) bool { return sameChar(v, x) })
-			if lo != 'A' || hi != 'Z' {
+			if lo != wantLo || hi != wantHi {
 				show := func(v int64) string {
 					if v >= 32 && v < 127 {
 						return fmt.Sprintf("%q", rune(v))
 					}
 					return fmt.Sprint(v)
 				}
-				problems = append(problems, fmt.Sprintf("%s: the octets that get 32 added are %s..%s, not 'A'..'Z': %s", c.pos(add.Pos()), show(lo), show(hi), consequence))
+				problems = append(problems, fmt.Sprintf("%s: the octets that get 32 added (subtracted) are %s..%s, not %s..%s: %s", c.pos(add.Pos()), show(lo), show(hi), show(wantLo), show(wantHi), consequence))
 			}
 		})
 	}
@@ -94,7 +103,7 @@ func foldRangeRule(c *Ctx, r *Report, rule, fname, consequence string) {
 				return false
 			}
 			lo, hi := charInterval(f, cv.Block(), isChar)
-			if lo > 'A' || hi < 'Z' {
+			if lo > wantLo || hi < wantHi {
 				show := func(v int64) string {
 					if v >= 32 && v < 127 {
 						return fmt.Sprintf("%q", rune(v))
@@ -109,7 +118,7 @@ func foldRangeRule(c *Ctx, r *Report, rule, fname, consequence string) {
 		r.undecided(rule, fname, c.pos(fn.Pos()), "%s does not lower-case by adding 32 to a byte or rune; its case folding cannot be recognised", fname)
 		return
 	}
-	r.check(len(problems) == 0, rule, fname, c.pos(fn.Pos()), "exactly 'A'..'Z' += 32", "%s", strings.Join(problems, "; "))
+	r.check(len(problems) == 0, rule, fname, c.pos(fn.Pos()), fmt.Sprintf("exactly %q..%q folded", rune(wantLo), rune(wantHi)), "%s", strings.Join(problems, "; "))
 }
 
 // charInterval: the interval of the character (a value accepted by isChar) on the edges that dominate blk, from
